@@ -148,6 +148,31 @@ theorem snapshot_census :
     (Gen.ops_snapTakenCh.filter (fun r => r.2 != "send" && r.2 != "recv" && r.2 != "nil")).map (·.2) = ["make 1"] ∧
     Gen.kinds[5]? = some (Kind.buffered 1) := by decide
 
+/-- the state loop around a snapshot in flight: it takes the result when it comes (`case t := <-r.snapTakenCh`), or the node
+    is closed first (`close(r.close)`) and `Raft.release` then WAITS for the result (`r.onSnapshotTaken(<-r.snapTakenCh)`) -/
+def closingLoop : Proc :=
+  Proc.mk "state loop" [Node.choice [1, 2], Node.comm [⟨false, 5, 4⟩] none, Node.close 6 3, Node.comm [⟨false, 5, 4⟩] none,
+    Node.halt] 0
+
+/-- the goroutine `onTakeSnapshot` starts (skeleton regenerated from the source) against that state loop -/
+def snapSys : Sys := Sys.mk [Gen.snapGoroutine, closingLoop] Gen.kinds
+
+/-- **shutdown with a snapshot in flight always finishes**: once the snapshot goroutine has returned, the state loop — whether
+    it is still running or already in `Raft.release` waiting for the result — is never blocked: the result is in `snapTakenCh`
+    or was received. (A hand-over that may be skipped when the node is closing would leave `release` waiting for ever.) -/
+theorem snapshot_result_always_delivered :
+    ∀ s, Reachable snapSys s → (!halted snapSys s 0 || halted snapSys s 1 || enabledStrict snapSys s 1) = true :=
+  checkAll_sound (fuel := 200) (by decide)
+
+/-- … and the goroutine itself never blocks on the hand-over, nor does anything panic -/
+theorem snapshot_goroutine_never_blocks :
+    ∀ s, Reachable snapSys s → (enabledStrict snapSys s 0 && noPanic s) = true :=
+  checkAll_sound (fuel := 200) (by decide)
+
+/-- **tie**: the only callee with channel operations inside that goroutine is `doTakeSnapshot` (it asks the fsm goroutine for
+    its state and waits for the answer; it returns — C03/C09 model it as the `snapRun` step) -/
+theorem snapGoroutine_closed : Gen.snapGoroutine_opaque = ["doTakeSnapshot"] := by decide
+
 /-- NECESSITY (what the capacity is for): with an unbuffered channel the very first result can block for ever -/
 example : checkAll (Sys.mk [deliver "deliver" 0 1, receiver 0] [Kind.sync]) 100
     (enabledStrict (Sys.mk [deliver "deliver" 0 1, receiver 0] [Kind.sync]) · 0) = false := by decide
@@ -173,3 +198,6 @@ end Raft.C15Chan
 #print axioms Raft.C15Chan.restore_census
 #print axioms Raft.C15Chan.snapshot_result_never_blocks
 #print axioms Raft.C15Chan.snapshot_census
+#print axioms Raft.C15Chan.snapshot_result_always_delivered
+#print axioms Raft.C15Chan.snapshot_goroutine_never_blocks
+#print axioms Raft.C15Chan.snapGoroutine_closed
